@@ -1,5 +1,6 @@
 import Mdns.Lemmas.Compare
 import Mdns.Lemmas.Names
+import Mdns.Driver.MonDuel
 /-
   C08  Name conflicts: one winner, consistent new name - the component-level part.
 
@@ -479,5 +480,33 @@ example : nameChange (str "x._x._udp.local.") = .ok (str "x (2)._x._udp.local.")
 /-- the hypotheses of `name_change_spec` are satisfiable on both sides -/
 example : firstPart (str "x (41).local.") = str "x" ++ SP_LPAREN ++ str "41" ++ [RPAREN] ∧
     parseU32 (str "41") = some 41 ∧ afterFirst (str "x (41).local.") = str ".local." := by decide
+
+/-! ## The names the daemon-level monitor allows a loser to end with -/
+
+/-- `MonDuel.renamesOf` - the set of names against which the duel monitor checks the loser of
+    a conflict - is the statement's sequence: for a name `x.rest` whose first label carries no
+    numeric suffix, exactly `x (2)`, `x (3)`, `x (4)`, `x (5)` (with the rest unchanged). -/
+theorem duel_allowed_names (x rest : BList) (hx : DOT ∉ x) (hr : rest = [] ∨ rest.head? = some DOT)
+    (hno : ¬ ∃ base num n, x = base ++ SP_LPAREN ++ num ++ [RPAREN] ∧ parseU32 num = some n) :
+    Mdns.Driver.MonDuel.renamesOf false (x ++ rest) =
+      [x ++ SP_LPAREN ++ decimal 2 ++ [RPAREN] ++ rest, x ++ SP_LPAREN ++ decimal 3 ++ [RPAREN] ++ rest,
+       x ++ SP_LPAREN ++ decimal 4 ++ [RPAREN] ++ rest, x ++ SP_LPAREN ++ decimal 5 ++ [RPAREN] ++ rest] := by
+  obtain ⟨h1, h2⟩ := firstPart_of_no_dot x rest hx hr
+  have s1 : nameChange (x ++ rest) = .ok (x ++ SP_LPAREN ++ decimal 2 ++ [RPAREN] ++ rest) := by
+    have := (name_change_spec (x ++ rest)).2 (by rw [h1]; exact hno)
+    rw [this, h1, h2]
+    have : PAREN2 = SP_LPAREN ++ decimal 2 ++ [RPAREN] := by decide
+    rw [this]
+    simp [List.append_assoc]
+  have s2 := name_change_counts_up x rest hx hr 2 (by decide)
+  have s3 := name_change_counts_up x rest hx hr 3 (by decide)
+  have s4 := name_change_counts_up x rest hx hr 4 (by decide)
+  unfold Mdns.Driver.MonDuel.renamesOf
+  simp only [Bool.false_eq_true, ↓reduceIte, s1, s2, s3, s4]
+
+/-- ... for instance -/
+example : Mdns.Driver.MonDuel.renamesOf false (str "dup._http._tcp.local.") =
+    [str "dup (2)._http._tcp.local.", str "dup (3)._http._tcp.local.", str "dup (4)._http._tcp.local.",
+     str "dup (5)._http._tcp.local."] := by decide
 
 end Mdns.Props.C08
